@@ -393,7 +393,8 @@ def run_runlevel(stream, seed, rng, props):
 
 def run_case(job):
     """job = (stream, seed, props)  ->  compact summary dict (picklable)."""
-    stream, seed, props = job
+    stream, seed, props = job[:3]
+    preset = job[3] if len(job) > 3 else None      # corpus / replay: the recorded configuration itself
     try:
         import runsim
         import monitors
@@ -405,7 +406,10 @@ def run_case(job):
         rng = random.Random("%s-%s" % (stream, seed))
         if stream in ("runlevel", "runlevel-paused"):
             return run_runlevel(stream, seed, rng, props)
-        spec, opt = make_spec(stream, rng, edge_index=seed)
+        if preset and preset.get("spec") and preset.get("opt"):
+            spec, opt = json.loads(json.dumps(preset["spec"])), dict(preset["opt"])
+        else:
+            spec, opt = make_spec(stream, rng, edge_index=seed)
         mprops = None
         if opt["env"] == "chaotic":
             # order-dependent clauses are stated for SimPy's order only
